@@ -347,8 +347,8 @@ def _recover(case, root):
                     # restored at all; else by running the sow script again
                     try:
                         restored = _load_crop(root)
-                        if restored.farmer is None:
-                            restored = None
+                        if restored.farmer is None or restored.fn is None:
+                            restored = None         # (no farmer or no function found with the crop: nothing to re-sow from)
                     except Exception:
                         restored = None
                 if restored is not None:
